@@ -10,8 +10,9 @@ namespace Drv
         | {"kind": "fn", "m": [[column name, str|null]]} | {"kind": "other"}
     LOG = the converter's observed behaviour, one entry per call in call order:
           {"vals": [tok], "from": str, "to": str|null, "ok": {"vals": [tok], "unit": str}} | {..., "exc": class name}
-  The model's converter answers call number k from entry k and only if the arguments agree with what the
-  real converter received; anything else is a protocol error (never a default).
+  The model's converter answers a call from the log entry recorded for the same arguments (the entry at the call's
+  own position if it matches, else the first one with these arguments); arguments the real converter never saw are
+  a protocol error (never a default).
   Answer: {"res": {"exc": cls} | {"ref": n, "table": T}, "orig": T (frame 0 afterwards), "frames": n}
 -/
 
@@ -54,10 +55,20 @@ def logEntryOfJson (j : Json) : Except String LogEntry := do
       pure (Except.ok (← strs o "vals", ← getStr o "unit"))
   pure ⟨vals, f, to, res⟩
 
+/-- the converter as observed: a call is answered by the log entry recorded for the same arguments — the entry at
+    the call's own position when that one matches (so that a stateful converter failing on its k-th call is
+    reproduced), otherwise the first entry with these arguments; no entry: protocol error -/
 def convOfLog (log : List LogEntry) : Conv := fun k vals from_ to =>
+  let hit := fun (e : LogEntry) => decide (e.vals = vals ∧ e.from_ = from_ ∧ e.to = to)
   match log[k]? with
-  | some e => if e.vals = vals ∧ e.from_ = from_ ∧ e.to = to then e.res else .error oracleMiss
-  | none => .error oracleMiss
+  | some e => if hit e then e.res else
+      match log.find? hit with
+      | some e' => e'.res
+      | none => .error oracleMiss
+  | none =>
+    match log.find? hit with
+    | some e' => e'.res
+    | none => .error oracleMiss
 
 def convOfJson (j : Json) : Except String (Option Conv) :=
   match j with
